@@ -400,9 +400,12 @@ def enumerate_paths(body, start=0, stop_at=(), max_visits=2, limit=50000, prune=
     counts = {start: 1}
     decisions = []   # (key, ("val", v) | ("not", frozenset(vals)))
 
+    steps = [0]
+
     def rec():
-        if len(out) > limit:
-            raise TooManyPaths("%s: more than %d paths" % (body.path, limit))
+        steps[0] += 1
+        if len(out) > limit or steps[0] > 40 * limit:
+            raise TooManyPaths("%s: more than %d paths / %d steps from block %d" % (body.path, limit, 40 * limit, start))
         b = blocks[-1]
         t = body.blocks[b]["term"]
         k = t["k"]
